@@ -75,6 +75,23 @@ def decRuns (k nFrames : Nat) : D (List (Option Frame)) := do
   | some b => pure b
   | none => .fail
 
+/-! ### what the user holds: raw rows, and how the library sees them
+
+A track in memory is an (n, k) float array: every row has all k components, any bit patterns. Which
+rows count as present is decided by `np.ma.masked_invalid(data)` followed by `clump_unmasked` of
+column 0 (tdfData3D.py:107-108, tdfEMG.py:68-69, tdfForce3D.py:59-60, tdfForcePlatformsData.py:78-79):
+a row is present iff its FIRST component is finite — neither NaN nor ±inf — whatever the others hold. -/
+
+/-- IEEE-754 single: finite iff the exponent field is not all ones -/
+def finite32 (b : UInt32) : Bool := (b.toNat / 8388608) % 256 != 255
+
+def rowPresent : Frame → Bool
+  | [] => false
+  | c :: _ => finite32 c
+
+/-- the library's view of a raw track: absent rows are dropped from storage and read back as NaN -/
+def see (raw : List Frame) : List (Option Frame) := raw.map (fun r => if rowPresent r then some r else none)
+
 /-- size as `nBytes` computes it: 4 + 4 + Σ (8 + w·len) -/
 def sizeRuns (k : Nat) (fs : List (Option Frame)) : Nat :=
   (runs fs).foldl (fun acc r => acc + (4 + 4 + r.2.length * (4 * k))) (4 + 4)
